@@ -43,6 +43,8 @@ def std_registry(kind: str) -> List[Dict[str, Any]]:
         {'name': '_us', 'params': [P('a', default=None)], 'flavour': 'func', 'ctx': 'none'},
         # a name under the 'rpc.' prefix (the protocol reserves it for extensions; an application may well register one)
         {'name': 'rpc.ext', 'params': [P('a', default=None)], 'flavour': co, 'ctx': 'none'},
+        # a method whose parameters are validated against a JSON schema (t must be a string)
+        {'name': 'js.tag', 'params': [P('t'), P('n', default=0)], 'flavour': 'func', 'ctx': 'none', 'schema_strings': ['t']},
     ]
 
 
